@@ -12,6 +12,16 @@ from .driver import Namespace
 from .interp import _named, exc_matches
 
 
+def repo_module(modname):
+    """import a module of the package under verification (from PYVC_REPO, default /repo)"""
+    if REPO not in sys.path:
+        sys.path.insert(0, REPO)
+    mod = importlib.import_module(modname)
+    if not os.path.abspath(mod.__file__).startswith(os.path.abspath(REPO)):
+        raise CheckerError("module %s was imported from %s, not from %s" % (modname, mod.__file__, REPO))
+    return mod
+
+
 def real_function(target):
     """'pyerrors/obs.py::Obs.gamma_method' -> the function object of the package in /repo"""
     if REPO not in sys.path:
